@@ -223,6 +223,9 @@ func (s *SchemaValidator) Validate(data interface{}) *Result {
 			continue
 		}
 
+		if s.Options.recycleValidators {
+			s.validators[idx] = nil // the child redeems itself, even when it panics: never redeem it twice
+		}
 		result.Merge(v.Validate(d))
 		if s.Options.recycleValidators {
 			s.validators[idx] = nil // prevents further (unsafe) usage
